@@ -26,6 +26,10 @@ import (
 type TableOp struct {
 	Kind string `json:"kind"` // txn | put | del
 	Req  []byte `json:"req"`
+	// LostAck (txn): the transaction is committed and applied, but the raft layer reports a timeout to the table layer - the outcome is
+	// ambiguous for the caller.  Whatever the table layer tells its caller, ONE call puts at most ONE entry into the log (seeded change
+	// C02-M: the table layer proposed the command again after a "safe to retry" error - both branches of a compare-and-swap ran)
+	LostAck bool `json:"lost_ack,omitempty"`
 }
 
 type TableCase struct {
@@ -96,7 +100,7 @@ func genTableCase(t *rapid.T) TableCase {
 			}
 			r := &regattapb.TxnRequest{Table: []byte("t"), Compare: x.Compare, Success: x.Success, Failure: x.Failure}
 			b, _ := r.MarshalVT()
-			c.Ops = append(c.Ops, TableOp{Kind: "txn", Req: b})
+			c.Ops = append(c.Ops, TableOp{Kind: "txn", Req: b, LostAck: rapid.IntRange(0, 7).Draw(t, "lostack") == 0})
 		}
 	}
 	return c
@@ -112,6 +116,7 @@ func runTable(c TableCase, o *vt.Obs) *vt.Failure {
 	m := model.New()
 	ctx := context.Background()
 	prevOnOwnWrite, readonly, both := false, false, map[bool]bool{}
+	lostAcks := 0
 	for i, op := range c.Ops {
 		switch op.Kind {
 		case "put":
@@ -154,7 +159,21 @@ func runTable(c TableCase, o *vt.Obs) *vt.Failure {
 				}
 			}
 			before := cl.Commit()
+			cl.LoseNextAck = op.LostAck && !r.IsReadonly()
+			lost := cl.LoseNextAck
 			resp, err := tab.Txn(ctx, r)
+			cl.LoseNextAck = false
+			if lost {
+				lostAcks++
+				if n := cl.Commit() - before; n > 1 {
+					return vt.Failf(prop+"/table-txn-proposed-more-than-once", i, "one transaction call (its first acknowledgement was lost: the raft layer reported a timeout for an entry that did commit) put %d entries into the log; answer to the caller: %v, %v", n, resp, err)
+				}
+				if err != nil {
+					// the caller was told about the ambiguity; the entry is in the log: the model follows the log
+					m.Apply(&regattapb.Command{Type: regattapb.Command_TXN, Table: r.Table, Txn: &regattapb.Txn{Compare: r.Compare, Success: r.Success, Failure: r.Failure}}, cl.Commit())
+					goto content
+				}
+			}
 			if err != nil {
 				return vt.Failf(prop+"/table-write-error", i, "txn: %v", err)
 			}
@@ -178,6 +197,7 @@ func runTable(c TableCase, o *vt.Obs) *vt.Failure {
 				return vt.Failf(prop+"/table-txn-responses", i, "transaction through the table layer (succeeded=%v, %d operations in the executed branch): %v", ok, len(ops), cerr)
 			}
 		}
+	content:
 		// every key of the model reads back, nothing else does
 		resp, err := tab.Range(ctx, &regattapb.RangeRequest{Table: []byte("t"), Key: []byte{0}, RangeEnd: []byte{0}, Linearizable: true})
 		if err != nil {
@@ -193,6 +213,9 @@ func runTable(c TableCase, o *vt.Obs) *vt.Failure {
 	}
 	if readonly {
 		o.Label("read-only-transaction-through-the-table-layer")
+	}
+	if lostAcks > 0 {
+		o.Label("transaction-whose-acknowledgement-from-the-raft-layer-was-lost")
 	}
 	o.NonTrivial = prevOnOwnWrite || (both[true] && both[false])
 	o.Describe = func() string {
